@@ -31,6 +31,8 @@ func c5ty(k thrift.Type) *Ty { return &Ty{K: k} }
 func (g *c5gen) elemTy(depth int) *Ty {
 	r := g.r
 	switch x := r.intn(10); {
+	case x == 9 && depth <= 1 && r.chance(40):
+		return g.tinyContainerTy()
 	case x < 4 || depth >= 2:
 		return c5ty([]thrift.Type{thrift.I32, thrift.STRING, thrift.I64, thrift.BOOL, thrift.I08, thrift.DOUBLE, thrift.I16}[r.intn(7)])
 	case x < 6:
@@ -84,6 +86,14 @@ func (g *c5gen) size() int {
 
 // small random payload of type t
 func (g *c5gen) payload(t *Ty) *Val {
+	if t.K == thrift.STRUCT && t.Name == "Tiny" {
+		v := &Val{T: t}
+		if g.r.chance(25) {
+			v.FIDs = []int16{1}
+			v.Fields = []*Val{{T: t.Fields[0].T, I: int64(g.r.intn(100))}}
+		}
+		return v
+	}
 	return g.tg.genValue(t, 3)
 }
 
@@ -217,8 +227,31 @@ func (g *c5gen) rootVal(t *Ty, n int, pfx string) *Val {
 	}
 }
 
+// a struct that is usually EMPTY on the wire (one byte): containers of such elements are shorter than any bound that
+// assumes a minimal element size, in particular at the tail of the value
+func c5tinyTy() *Ty {
+	return &Ty{K: thrift.STRUCT, Name: "Tiny", Fields: []*Fld{{ID: 1, T: c5ty(thrift.I08), Req: 2}}}
+}
+
+func (g *c5gen) tinyContainerTy() *Ty {
+	r := g.r
+	switch r.intn(4) {
+	case 0:
+		return &Ty{K: thrift.LIST, Elem: c5tinyTy()}
+	case 1:
+		return &Ty{K: thrift.SET, Elem: c5tinyTy()}
+	case 2:
+		return &Ty{K: thrift.MAP, Key: c5ty(thrift.STRING), Elem: c5tinyTy()}
+	default:
+		return &Ty{K: thrift.MAP, Key: c5ty([]thrift.Type{thrift.I08, thrift.I16, thrift.I32, thrift.I64}[r.intn(4)]), Elem: c5tinyTy()}
+	}
+}
+
 func (g *c5gen) rootTy() *Ty {
 	r := g.r
+	if r.chance(10) {
+		return g.tinyContainerTy()
+	}
 	switch x := r.intn(10); {
 	case x < 3:
 		return g.structTy(0)
@@ -294,7 +327,78 @@ type c5run struct {
 	hashes map[string]uint64
 	hkeys  []string
 	stale  []Step // keys of earlier loads (looked up again after a reload)
+	kept   []c5kept // the last Marshal results, held as the very slices returned
 }
+
+type c5kept struct{ live, copy []byte }
+
+// a result handed to the caller is the caller's: remember the slice itself and a private copy
+func (c *c5run) keep(out []byte) {
+	if len(out) == 0 {
+		return
+	}
+	c.kept = append(c.kept, c5kept{live: out, copy: append([]byte(nil), out...)})
+	if len(c.kept) > 4 {
+		c.kept = c.kept[len(c.kept)-4:]
+	}
+}
+
+var c5scratchBytes = []byte{0x0a, 0x00, 0x01, 0x11, 0x22, 0x33, 0x44, 0x55, 0x66, 0x77, 0x88, 0x0b, 0x00, 0x02, 0x00, 0x00, 0x00, 0x03, 'x', 'y', 'z', 0x00}
+
+// marshal ANOTHER tree (twice, plus once into a caller buffer), then re-compare the kept results (check op 11)
+func (c *c5run) opRetain() {
+	other := &generic.PathNode{Node: generic.NewNode(thrift.STRUCT, c5scratchBytes)}
+	noPanic(func() {
+		if other.Load(true, c.opts) == nil {
+			other.Marshal(c.opts)
+			other.Marshal(c.opts)
+			buf := make([]byte, 0, 8)
+			other.MarshalIntoBuffer(&buf, c.opts)
+		}
+	})
+	changed := 0
+	for _, k := range c.kept {
+		if string(k.live) != string(k.copy) {
+			changed++
+		}
+	}
+	c.add("n11", fi(len(c.kept)), fi(changed))
+	c.nops++
+}
+
+// MarshalIntoBuffer into a caller buffer: capacity class 0 none, 1 small, 2 exact, 3 one short, 4 large (check op 10)
+func (c *c5run) opMarshalInto(p []Step, class int) {
+	t, st := c.nav(p)
+	if st != 0 {
+		c.opMarshal(p)
+		return
+	}
+	need := 0
+	if ms, ref := c.marshalOf(t); ms == 0 {
+		need = len(ref)
+	}
+	capn := []int{0, 16, need, need - 1, need*2 + 4096}[class%5]
+	if capn < 0 {
+		capn = 0
+	}
+	buf := make([]byte, 0, capn)
+	var err error
+	ok, _ := noPanic(func() { err = t.MarshalIntoBuffer(&buf, c.opts) })
+	c.add("n10")
+	c.add(pathFields(p)...)
+	c.add(fi(capn))
+	switch {
+	case !ok:
+		c.add("n3", fx(nil))
+	case err != nil:
+		c.add("n2", fx(nil))
+	default:
+		c.add("n0", fx(buf))
+		c.keep(buf)
+	}
+	c.nops++
+}
+
 
 func (c *c5run) noteStr(b []byte) {
 	s := string(b)
@@ -378,6 +482,7 @@ func (c *c5run) marshalOf(t *generic.PathNode) (int, []byte) {
 	if err != nil {
 		return 2, nil
 	}
+	c.keep(out)
 	return 0, out
 }
 
@@ -631,6 +736,11 @@ func (c *c5run) absentKey(tg *c5target) (Step, bool) {
 		case thrift.STRUCT:
 			ids := []int64{0, 1, 2, 3, 4, 5, 6, 7, 100, 254, 255, 256, 257, 258, 300, 1000, 1001, 32767, 40000, 65535}
 			s = Step{Kind: 1, N: ids[r.intn(len(ids))]}
+			if len(c.stale) > 0 && r.chance(50) { // a field id an EARLIER load of this node had
+				if x := c.stale[r.intn(len(c.stale))]; x.Kind == 1 {
+					s = x
+				}
+			}
 		case thrift.MAP:
 			if len(c.stale) > 0 && r.chance(50) {
 				s = c.stale[r.intn(len(c.stale))]
@@ -902,11 +1012,140 @@ func (c *c5run) sweepCase(k int) {
 	}
 }
 
+// ---- big trees: marshalled output of 4..40 KiB ----
+// The output buffer of Marshal (pooled, initial capacity 4096) and a small caller buffer of MarshalIntoBuffer must GROW
+// while such a tree is written; cleared children and table holes at LATE positions are then skipped after a growth step.
+// Few children with long string payloads keep the model cheap.
+
+func (g *c5gen) longStr(n int) *Val {
+	b := make([]byte, n)
+	seed := g.r.bytes(16)
+	for i := range b {
+		b[i] = seed[i%16] + byte(i/16)
+	}
+	return &Val{T: c5ty(thrift.STRING), S: b}
+}
+
+func (g *c5gen) bigVal(k int) *Val {
+	r := g.r
+	total := []int{5000, 9000, 14000, 6000, 24000, 11000, 40000, 7000}[k%8] + r.intn(1500)
+	n := 18 + r.intn(30)
+	each := total / n
+	st := c5ty(thrift.STRING)
+	switch k % 4 {
+	case 0:
+		kind := thrift.LIST
+		if r.bool() {
+			kind = thrift.SET
+		}
+		v := &Val{T: &Ty{K: kind, Elem: st}}
+		for i := 0; i < n; i++ {
+			v.Elems = append(v.Elems, g.longStr(each+r.intn(40)))
+		}
+		return v
+	case 1:
+		v := &Val{T: &Ty{K: thrift.MAP, Key: st, Elem: st}}
+		for i := 0; i < n; i++ {
+			v.Keys = append(v.Keys, &Val{T: st, S: []byte(fmt.Sprintf("key-%d-%d", i, r.intn(1000)))})
+			v.Elems = append(v.Elems, g.longStr(each+r.intn(40)))
+		}
+		return v
+	case 2:
+		kt := c5ty([]thrift.Type{thrift.I32, thrift.I64, thrift.I16}[r.intn(3)])
+		v := &Val{T: &Ty{K: thrift.MAP, Key: kt, Elem: st}}
+		for i := 0; i < n; i++ {
+			v.Keys = append(v.Keys, &Val{T: kt, I: int64(i*7 + 1)})
+			v.Elems = append(v.Elems, g.longStr(each+r.intn(40)))
+		}
+		return v
+	default: // struct: long strings and one long list
+		t := &Ty{K: thrift.STRUCT, Name: "S"}
+		v := &Val{T: t}
+		lt := &Ty{K: thrift.LIST, Elem: st}
+		for i := 0; i < 6; i++ {
+			id := int16(1 + i*50)
+			if i == 3 {
+				lv := &Val{T: lt}
+				for j := 0; j < n; j++ {
+					lv.Elems = append(lv.Elems, g.longStr(each/2+r.intn(40)))
+				}
+				t.Fields = append(t.Fields, &Fld{ID: id, T: lt})
+				v.FIDs = append(v.FIDs, id)
+				v.Fields = append(v.Fields, lv)
+				continue
+			}
+			t.Fields = append(t.Fields, &Fld{ID: id, T: st})
+			v.FIDs = append(v.FIDs, id)
+			v.Fields = append(v.Fields, g.longStr(total/12+r.intn(40)))
+		}
+		return v
+	}
+}
+
+func (c *c5run) bigCase(k int) {
+	r := c.g.r
+	nloads := 1 + r.intn(2)
+	for li := 0; li < nloads; li++ {
+		if li > 0 && r.chance(30) {
+			c.opPool()
+		}
+		v := c.g.bigVal(k + li*3)
+		rec := r.chance(60)
+		c.opLoad(rec, v)
+		c.opMarshal(nil)
+		c.opMarshalInto(nil, r.intn(5))
+		c.opRetain()
+		// the container whose children are edited: the root, or the long list inside the struct
+		tg := &c5target{val: v, leafKid: !rec, touched: map[string]bool{}}
+		if v.T.K == thrift.STRUCT && rec {
+			tg = &c5target{path: []Step{{Kind: 1, N: int64(uint16(v.FIDs[3]))}}, val: v.Fields[3], leafKid: false, touched: map[string]bool{}}
+		}
+		ks, cs := c5children(tg.val)
+		late := func() int { return len(ks) - 1 - r.intn(1+len(ks)/4) } // positions in the last quarter
+		for round := 0; round < 2 && len(ks) > 0; round++ {
+			for i := 0; i < 1+r.intn(3); i++ {
+				j := late()
+				if r.chance(70) {
+					c.opClear(tg.path, ks[j])
+				} else if cs[j].T.K == thrift.STRING {
+					c.opSet(tg.path, ks[j], c.g.longStr(100+r.intn(600)))
+				}
+			}
+			c.opMarshal(nil)
+			c.opMarshalInto(nil, 1+round) // small / exact caller buffer: must grow resp. just fits
+			if r.chance(50) {
+				c.opMarshalInto(tg.path, r.intn(5))
+			}
+			if r.chance(40) {
+				c.opTyped(nil)
+			}
+			c.opRetain()
+		}
+		c.opGet(tg.path, ks[late()])
+		c.opMarshal(nil)
+		c.opRetain()
+	}
+}
+
 func genC05(r *rng, n int) {
 	for ci := 0; ci < n; ci++ {
 		g := &c5gen{r: r.fork()}
 		g.tg = newTgen(g.r)
 		g.tg.maxDepth = 2
+		if ci%25 == 7 {
+			bits := (ci / 25) % 16 // every option set over the big cases of one run
+			opts := &generic.Options{StoreChildrenById: bits&1 != 0, StoreChildrenByHash: bits&2 != 0, NotScanParentNode: bits&4 != 0, UseNativeSkip: bits&8 != 0}
+			c := &c5run{g: g, opts: opts, pn: &generic.PathNode{}, hashes: map[string]uint64{}}
+			c.bigCase(ci / 25)
+			fields := []string{fi(bits), fi(len(c.hkeys))}
+			for _, k := range c.hkeys {
+				fields = append(fields, fs(k), fu(c.hashes[k]))
+			}
+			fields = append(fields, fi(c.nops))
+			fields = append(fields, c.ops...)
+			out.emit(501, fields...)
+			continue
+		}
 		if ci%5 == 4 {
 			bits := 1 | (ci/5%8)<<1 // StoreChildrenById with every combination of the other options
 			opts := &generic.Options{StoreChildrenById: true, StoreChildrenByHash: bits&2 != 0, NotScanParentNode: bits&4 != 0, UseNativeSkip: bits&8 != 0}
@@ -983,6 +1222,10 @@ func genC05(r *rng, n int) {
 				break
 			}
 			c.opMarshal(nil)
+			if rr.chance(50) {
+				c.opMarshalInto(nil, rr.intn(5))
+			}
+			c.opRetain()
 			// remember some keys of this load for stale lookups after the next one
 			for i, k := range ks {
 				if i%7 == 0 || len(ks) < 8 {
